@@ -133,7 +133,13 @@ impl<T: FloatT> MatrixMathMut<T> for CscMatrix<T> {
 
 #[allow(non_snake_case)]
 fn _csc_symv_safe<T: FloatT>(A: &CscMatrix<T>, y: &mut [T], x: &[T], a: T, b: T) {
-    y.scale(b);
+    // b == 0 must overwrite y (as gemv does): scaling would keep a NaN or inf
+    // left in the output buffer by an earlier, diverged computation
+    if b == T::zero() {
+        y.fill(T::zero());
+    } else {
+        y.scale(b);
+    }
 
     assert!(x.len() == A.n);
     assert!(y.len() == A.n);
@@ -166,7 +172,13 @@ fn _csc_symv_safe<T: FloatT>(A: &CscMatrix<T>, y: &mut [T], x: &[T], a: T, b: T)
 // direct linear solves.
 #[allow(non_snake_case)]
 fn _csc_symv_unsafe<T: FloatT>(A: &CscMatrix<T>, y: &mut [T], x: &[T], a: T, b: T) {
-    y.scale(b);
+    // b == 0 must overwrite y (as gemv does): scaling would keep a NaN or inf
+    // left in the output buffer by an earlier, diverged computation
+    if b == T::zero() {
+        y.fill(T::zero());
+    } else {
+        y.scale(b);
+    }
 
     assert!(x.len() == A.n);
     assert!(y.len() == A.n);
